@@ -328,8 +328,35 @@ def run_case(case):
             for im in imgs:
                 if im.D != d or tuple(im.is_torus) != torus or tuple(im.spatial_dims) != shape:
                     return result(viol("C13/images/metadata", f"{im}"), True, key, labels, evals)
+            # from_images appends image by image (quadratic in the number of images): with thousands of images only the first 600
+            # are rebuilt, the to_images side is still checked for all of them
+            flat_blocks = [(t, np.asarray(v).reshape((-1,) + shape + (d,) * t[0])) for t, v in cur.items()]
+            if len(imgs) > 600:
+                labels.append("images_roundtrip_truncated")
+                i0 = 0
+                v = None
+                for t, blk in flat_blocks:
+                    for j in range(blk.shape[0]):
+                        if not exact_equal(np.asarray(imgs[i0 + j].data), blk[j]):
+                            v = viol("C13/images-roundtrip", f"to_images: image {i0 + j} differs from its entry of block {t}")
+                            break
+                    i0 += blk.shape[0]
+                    if v:
+                        break
+                imgs = imgs[:600]
+                counts = {}
+                keep = []
+                i0 = 0
+                for t, blk in flat_blocks:
+                    n_t = max(0, min(blk.shape[0], 600 - i0))
+                    if n_t:
+                        keep.append((t, blk[:n_t]))
+                    i0 += blk.shape[0]
+                flat_blocks = keep
+                if v:
+                    return result(v, True, key, labels, evals)
             back = geom.MultiImage.from_images(imgs)
-            flat = ([(t, np.asarray(v).reshape((-1,) + shape + (d,) * t[0])) for t, v in cur.items()], d, torus)
+            flat = (flat_blocks, d, torus)
             v = _same(back, flat, "images-roundtrip")
             if v is None:
                 # parity of every image is the parity of its block
